@@ -30,10 +30,11 @@ TRUSTED = ["modelled not verified: tokio RwLock, ractor mailbox, iroh-gossip ses
 RULE = ("schedules are label lists (thread index | M = manager handles next message) over 2-4 threads each running "
         "'h = stream(topic); keep or drop h'; disabled labels are skipped and the rest runs to completion on both sides. quick: all "
         "complete interleavings of the two-thread programs dk, dd, kd, kk after thread 0 finished its stream() alone (exhaustive), 30 "
-        "sampled interleavings each from a fully concurrent start, 22 sampled interleavings for each of 6 three-thread programs x 2 "
+        "sampled interleavings each from a fully concurrent start, every interleaving of the fetch_sub / decision steps of two and three "
+        "concurrent drops of the same topic's handles (counter 2 and 3, with and without a kept handle), 22 sampled interleavings for each of 6 three-thread programs x 2 "
         "sequential starts (counter 1 / counter 2), 40 random three-thread walks; thorough: two-thread exhaustive for both starts, 400 "
         "per three-thread program and start, 600 random three-thread and 300 four-thread walks. non-trivial = a drop's fetch_sub or a "
-        "stream's check runs while another thread sits inside the fast-path window or between fetch_sub and Unsubscribe")
+        "stream's check runs while another thread sits inside the fast-path window or between fetch_sub and the decision / Unsubscribe")
 NONTRIVIAL_FLOOR = 10
 
 
@@ -96,7 +97,7 @@ class Sim:
         p = self.pc[i]
         others = [q for j, q in enumerate(self.pc) if j != i]
         if p[0] == "Stream":
-            if any(q[0] in ("Send",) for q in others) or any(q[0] == "Drop" for q in others):
+            if any(q[0] in ("Send", "Dec") for q in others) or any(q[0] == "Drop" for q in others):
                 self.window = True
             g = self.cur
             if g is not None and self.ctr[g] >= 1:
@@ -112,7 +113,7 @@ class Sim:
             self.rlock -= 1
             self.pc[i] = self.after(i, p[1])
         elif p[0] == "Slow":
-            owed = any(q[0] == "Send" for q in others)
+            owed = any(q[0] == "Send" or (q[0] == "Dec" and q[2] == 1) for q in others)
             alive = any(c >= 1 for c in self.ctr)
             if owed:
                 self.overlaps.append("late")
@@ -126,12 +127,14 @@ class Sim:
             self.cur = p[1]
             self.pc[i] = self.after(i, p[1])
         elif p[0] == "Drop":
-            if any(q[0] == "Win" for q in others):
+            if any(q[0] == "Win" for q in others) or any(q[0] == "Dec" for q in others):
                 self.window = True
             g = p[1]
             prev = self.ctr[g]
             self.ctr[g] = max(0, prev - 1)
-            self.pc[i] = ("Send", g) if prev == 1 else ("Done",)
+            self.pc[i] = ("Dec", g, prev)      # fetch_sub done, the previous value is thread-local
+        elif p[0] == "Dec":
+            self.pc[i] = ("Send", p[1]) if p[2] == 1 else ("Done",)
         elif p[0] == "Send":
             self.mbox.append(("U", p[1]))
             self.pc[i] = ("Done",)
@@ -178,6 +181,24 @@ SEQ_START = [0, 0, "M", 0]        # thread 0 completes its stream() (slow path) 
 SEQ2_START = [0, 0, "M", 0, 1, 1]  # ... then thread 1 completes its stream() (fast path) alone
 
 
+SEQ3_START = [0, 0, "M", 0, 1, 1, 2, 2]  # ... then thread 2 as well (counter 3)
+
+
+def _drop_interleavings(sim, prefix, out):
+    """every interleaving of the fetch_sub / decision steps of the threads that are dropping their handle
+    (the Unsubscribe and the manager run afterwards, in drain order)"""
+    ls = [i for i, p in enumerate(sim.pc) if p[0] in ("Drop", "Dec")]
+    if not ls:
+        out.append(list(prefix))
+        return
+    for l in ls:
+        s2 = sim.clone()
+        s2.step(l)
+        prefix.append(l)
+        _drop_interleavings(s2, prefix, out)
+        prefix.pop()
+
+
 def _prefixed(flags, prefix):
     sim = Sim(flags)
     for l in prefix:
@@ -190,6 +211,8 @@ REAL_CASES = [
     {"flags": "dk", "labels": [0, 0, 0, 0, 0, 1, 1], "real": True},          # drop completely, then re-subscribe
     {"flags": "kk", "labels": [0, 0, 0, 1, 1], "real": True},                # second handle through the fast path
     {"flags": "dd", "labels": [0, 0, 0, 1, 1, 0, 1], "real": True},          # two handles, both dropped
+    {"flags": "dd", "labels": [0, 0, 0, 1, 1, 0, 1, 0, 1], "real": True},    # ... both decrements before either decision
+    {"flags": "dd", "labels": [0, 0, 0, 1, 1, 0, 1, 1, 0], "real": True},
 ]
 
 
@@ -205,6 +228,12 @@ def gen(tier, rng):
                 out = rng.sample(out, cap)
             for s in out:
                 yield {"flags": flags, "labels": s}
+    # the last two / three handles of one topic dropped concurrently: every interleaving of the decrements and decisions
+    for flags, prefix in (("dd", SEQ2_START), ("ddk", SEQ2_START), ("ddd", SEQ3_START), ("ddk", SEQ3_START), ("kdd", SEQ3_START)):
+        out = []
+        _drop_interleavings(_prefixed(flags, prefix), list(prefix), out)
+        for s in out:
+            yield {"flags": flags, "labels": s}
     for flags in ["ddk", "dkk", "dkd", "kdd", "ddd", "kkd"]:
         for prefix in (SEQ_START, SEQ2_START):
             out = []
